@@ -58,11 +58,16 @@ StrOK(a) ==
      \/ (a.op \in {"cmps", "scas"} /\ a.rep \in {"", "repz", "repnz"})
 
 MBv == 1048576
-PrintOK(wt) ==
+\* a constant of a print statement is a number or `offset <data label>` (field <f>sym holds the name, <f> is then 0)
+SymName(wt, f) == f \o "sym"
+SymOK(wt, f, env) == SymName(wt, f) \notin DOMAIN wt \/ wt[SymName(wt, f)] \in env.data
+SymVal(wt, f, env) == IF SymName(wt, f) \in DOMAIN wt THEN env.offsets[wt[SymName(wt, f)]] ELSE wt[f]
+PrintOK(wt, env) ==
   CASE wt.k \in {"flags", "reg"} -> TRUE
-    [] wt.k = "range" -> wt.a \in 0 .. 2147483647 /\ wt.b \in 0 .. 2147483647
-    [] wt.k = "span" -> wt.a \in 0 .. 2147483647 /\ wt.n \in 0 .. 2147483647 /\ (wt.a % MBv) + (wt.n % MBv) < MBv
-    [] wt.k = "dsspan" -> wt.n \in 0 .. 2147483647
+    [] wt.k = "range" -> wt.a \in 0 .. 2147483647 /\ wt.b \in 0 .. 2147483647 /\ SymOK(wt, "a", env) /\ SymOK(wt, "b", env)
+    [] wt.k = "span" -> /\ wt.a \in 0 .. 2147483647 /\ wt.n \in 0 .. 2147483647 /\ SymOK(wt, "a", env) /\ SymOK(wt, "n", env)
+                        /\ (SymVal(wt, "a", env) % MBv) + (SymVal(wt, "n", env) % MBv) < MBv
+    [] wt.k = "dsspan" -> wt.n \in 0 .. 2147483647 /\ SymOK(wt, "n", env)
     [] OTHER -> FALSE
 
 \* env = [data (set of data label names), offsets (name -> offset), code (set of code label names),
@@ -97,7 +102,7 @@ InsOK(a, env) ==
     [] a.cls = "ret"  -> TRUE
     [] a.cls = "int"  -> a.n \in {3, 16, 33}
     [] a.cls = "string" -> StrOK(a)
-    [] a.cls = "print" -> PrintOK(a.what)
+    [] a.cls = "print" -> PrintOK(a.what, env)
     [] OTHER -> FALSE         \* unsupported instruction (in, out, lds, les, into, iret, wait, esc, lock, ...)
 
 (***************************************************************************)
